@@ -408,7 +408,7 @@ var propWire = &kit.Prop[WireCase]{
 	ID: "C13", Name: "e2e", Journal: true,
 	Rule: "a real martian.Proxy whose request modifier is a fifo group [url filter host martian.proxy -> api.Forwarder, martianhttp.Modifier holding a generated verifier tree] in front of a scripted origin and a local API server (configure / verify / reset handlers); 1..2 keep-alive client connections; the configuration, every verification query and every reset travel THROUGH the proxy to http://martian.proxy/... on those same connections, interleaved with <= 16|30 ordinary exchanges; each query's answer and a final direct query are compared as multisets with the model; non-trivial = an ordinary exchange with an unmet expectation follows an API request on its own connection",
 	Gen: func(t *rapid.T) WireCase {
-		c := WireCase{Tree: genTree(t), Conns: 1 + uni(t, "conns", 2), CloneRT: rapid.Bool().Draw(t, "clonert")}
+		c := WireCase{Tree: genTreeOpt(t, true), Conns: 1 + uni(t, "conns", 2), CloneRT: rapid.Bool().Draw(t, "clonert")}
 		n := 3 + uni(t, "nops", kit.N(14, 28))
 		for i := 0; i < n; i++ {
 			op := WireOp{Conn: uni(t, "conn", c.Conns)}
